@@ -5,6 +5,7 @@ P(c) == [c EXCEPT !.pre = TRUE]
 DCfgs == { K("path", FALSE, FALSE, FALSE), K("path", TRUE, FALSE, FALSE), K("stream", TRUE, FALSE, FALSE),
            K("path", FALSE, TRUE, FALSE), K("stream", TRUE, TRUE, TRUE),
            P(K("path", FALSE, FALSE, FALSE)), P(K("path", TRUE, FALSE, TRUE)),       \* the path holds a longer file already
-           K("stream", FALSE, FALSE, FALSE) }                                         \* explicit WriteAsCarV1(false) on a stream
+           K("stream", FALSE, FALSE, FALSE),                                          \* explicit WriteAsCarV1(false) on a stream
+           K("wstream", FALSE, FALSE, FALSE) }    \* ... on a stream that can also be written at an offset (an *os.File): a CARv2, finalized by Close
 DRoots == <<"b1">>
 =============================================================================
